@@ -363,7 +363,7 @@ func init() {
 		Units: []string{"fasthttputil.(*PipeConns)", "fasthttputil.(*pipeConn)", "fasthttputil.NewPipeConns", "fasthttputil.acquireByteBuffer", "fasthttputil.releaseByteBuffer", "fasthttputil.(*InmemoryListener)", "fasthttputil.NewInmemoryListener"},
 		Runs: []Run{
 			{Pkg: "fasthttputil", Func: "vhC33PipeStream", Quick: map[string]int{"writes": 2, "writeLen": 3}, Thorough: map[string]int{"writes": 3, "writeLen": 4}},
-			{Pkg: "fasthttputil", Func: "vhC33ReadTimeout", Quick: map[string]int{"writes": 3, "writeLen": 3}, Thorough: map[string]int{"writes": 4, "writeLen": 3}, NoNative: true},
+			{Pkg: "fasthttputil", Func: "vhC33ReadTimeout", Quick: map[string]int{"writes": 3, "writeLen": 3}, Thorough: map[string]int{"writes": 3, "writeLen": 4}, NoNative: true, PathCap: 1500000},
 			{Pkg: "fasthttputil", Func: "vhC33Listener", NoNative: true},
 		},
 		Assume: []string{
@@ -475,7 +475,7 @@ func init() {
 		},
 		Assume: []string{clientAssume,
 			"crypto/tls is replaced by a transparent model (engine/interp/intr_tls.go): tls.Client wraps the dialled connection, reports the configured ServerName to it, the handshake succeeds, and Read/Write pass plaintext through while marking it as 'inside TLS'; nothing of the real TLS stack is checked. Natively (sample validation, replays) the real crypto/tls runs against the scripted connection, the handshake fails, and only the safety obligations (no https request bytes on a raw connection, no http request inside TLS) are evaluated",
-			"two requests through one Client: the first with a scheme of 4 or 5 arbitrary ASCII letters, the second with http / https / HTTPS / ftp, to the same or another host; a HostClient with IsTLS on/off and an arbitrary 4-5 letter scheme; DoRedirects from http to https and from https to http; LBClient and PipelineClient are outside this check",
+			"the scripted network is handed to the Client / HostClient through the Dial option or through the DialTimeout option (a choice); two requests through one Client: the first with a scheme of 4 or 5 arbitrary ASCII letters, the second with http / https / HTTPS / ftp, to the same or another host; a HostClient with IsTLS on/off and an arbitrary 4-5 letter scheme; DoRedirects from http to https and from https to http; LBClient and PipelineClient are outside this check",
 		},
 	})
 }
